@@ -1132,7 +1132,13 @@ impl<'a> Binder<'a> {
             | ScalarFunction::Ceil
             | ScalarFunction::Floor
             | ScalarFunction::Sqrt => DataTypeKind::Double,
-            ScalarFunction::Coalesce | ScalarFunction::NullIf | ScalarFunction::Cast => args
+            // the type of the first argument that has one (a NULL literal has none)
+            ScalarFunction::Coalesce => args
+                .iter()
+                .map(|a| a.data_type())
+                .find(|k| *k != DataTypeKind::Null)
+                .unwrap_or(DataTypeKind::Null),
+            ScalarFunction::NullIf | ScalarFunction::Cast => args
                 .first()
                 .map(|a| a.data_type())
                 .unwrap_or(DataTypeKind::Null),
